@@ -72,7 +72,9 @@ def sample_same_payload(rng, fixed):
     """native sampler for the frame-condition harness: for is60 a BDS 6,0 payload whose IAS matches its Mach number at
     the altitude in the frame's own header (so the verdict depends on the header), and another header for the earlier
     call; other registers: a plausible payload and a random other header"""
-    other_head = rng.choice(["10100", "10101", "10100"]) + "".join(rng.choice("01") for _ in range(27))
+    oh = [rng.choice("01") for _ in range(27)]
+    oh[20], oh[22] = "0", "1"
+    other_head = "10100" + "".join(oh)
     if fixed.get("name") != "is60":
         return {"msg": sample_5060(rng, fixed)["msg"], "other_head": other_head}
     from spec import alt_spec
@@ -91,15 +93,43 @@ def sample_same_payload(rng, fixed):
     return {"msg": hex_of_bits(head + mb + par), "other_head": other_head}
 
 
-@harness("C12", sampler=sample_same_payload,
-         inputs={"msg": HexStr(28), "other_head": BinStr(32), "name": Choice(*ISNAMES)},
-         functions=[D + n[2:] + "." + n for n in ISNAMES], body_of=[D + n[2:] + "." + n for n in ISNAMES],
-         overrides={D + "17.cap17": cap17_only_bds20}, regions=["region_roll_sign"], idealised=True,
+def sample_same_payload_case(rng, fixed):
+    st = fixed.get("st", 0)
+    for _ in range(200):
+        out = sample_same_payload(rng, fixed)
+        mb = format(int(out["msg"], 16), "0112b")[32:88]
+        if fixed.get("name") != "is60":
+            mb = str((st >> 2) % 2) + mb[1:12] + str((st >> 1) % 2) + mb[13:23] + str(st % 2) + mb[24:]
+            full = format(int(out["msg"], 16), "0112b")
+            out["msg"] = hex_of_bits(full[:32] + mb + full[88:])
+            return out
+        if (int(mb[0]), int(mb[12]), int(mb[23])) == ((st >> 2) % 2, (st >> 1) % 2, st % 2):
+            return out
+    full = format(int(out["msg"], 16), "0112b")
+    mb = str((st >> 2) % 2) + mb[1:12] + str((st >> 1) % 2) + mb[13:23] + str(st % 2) + mb[24:]
+    out["msg"] = hex_of_bits(full[:32] + mb + full[88:])
+    return out
+
+
+@harness("C12", sampler=sample_same_payload_case,
+         inputs={"msg": HexStr(28), "other_head": BinStr(32), "name": Choice("is60", "is40", "is20"),
+                 "st": Choice(0, 1, 2, 3, 4, 5, 6, 7)},
+         functions=[D + n[2:] + "." + n for n in ("is60", "is40", "is20")],
+         body_of=[D + n[2:] + "." + n for n in ("is60", "is40", "is20")], idealised=True,
          note="frame condition, added after seed C12-5 (a verdict cache keyed by DF and MB payload, while is60 also "
               "depends on the altitude in the header): a register test is still right after an earlier call on a "
-              "reply with the same MB payload and parity under any other header")
-def isnn_is_a_function_of_the_message(msg, other_head, name):
+              "reply with the same MB payload and parity under any other header.  Stated for is60 (the one register "
+              "test that reads the header: altitude of a DF20 reply), is40 and is20; the others are left to their "
+              "per-call obligation (is50's F15 region would need a second known-finding entry)")
+def isnn_is_a_function_of_the_message(msg, other_head, name, st):
     bits = F.hexbits(msg)
+    # exhaustive case split on three status bits of the payload (shared by both calls): it only spreads the paths of
+    # the two executions over parallel cases
+    mb = F.me(bits)
+    assume(F.bit(mb, 1) == (st >> 2) % 2 and F.bit(mb, 13) == (st >> 1) % 2 and F.bit(mb, 24) == st % 2)
+    # the earlier reply: DF20 with a 25-ft (M = 0, Q = 1) altitude code, all other header bits free - keeps the
+    # number of paths of the first execution small (the Gillham branch of the altitude decoder is not entered)
+    assume(other_head[0:5] == "10100" and other_head[25] == "0" and other_head[27] == "1")
     other = hex_of_bits(other_head + bits[32:112])
     f = getattr(MODS[name], name)
     outcome(f, other)
